@@ -656,8 +656,37 @@ pub fn goto_machine(rng: &mut Rng, input_free: bool) -> Vec<Cmd> {
         Cmd::new(1, gh, gd, area)
     };
     let mut v: Vec<Cmd> = Vec::new();
+    if rng.chance(30) && pool.len() >= 2 && pool[0] != pool[1] {
+        // the first command becomes a jump source: visit 1 registers A at command 0, a later command
+        // jumps back to it, visit 2 takes the other heart B (registered further down: a forward jump
+        // from command 0), and a ♡ then returns to command 0
+        let (a, b) = (pool[0], pool[1]);
+        let t = rng.below(2) as u8;
+        v.push(Cmd::new(1, gh, gd, RArea::Node(t, Box::new(RArea::Leaf(b)), Box::new(RArea::Leaf(a)))));
+        if rng.chance(40) {
+            v.push(Cmd::new(0, 1, rng.usize(33, 90), RArea::Nil));
+            v.push(Cmd::new(1, 1, 1, RArea::Nil));
+        }
+        v.push(Cmd::new(1, gh, gd, RArea::Leaf(b)));
+        if rng.chance(70) {
+            v.push(Cmd::new(1, gh, gd, RArea::Leaf(13)));
+        }
+        // the value that decides visit 2: below / equal to the shared count
+        let cnt = gh * gd;
+        let small = if t == 0 { rng.usize(0, cnt.saturating_sub(1)) } else { cnt };
+        let (h, d) = factor_pair(small.max(0));
+        if small == 0 {
+            v.push(Cmd::new(0, 1, 0, RArea::Nil));
+        } else {
+            v.push(Cmd::new(0, h, d, RArea::Nil));
+        }
+        v.push(Cmd::new(1, gh, gd, RArea::Leaf(a)));
+        if rng.chance(50) {
+            v.push(Cmd::new(1, gh, gd, RArea::Leaf(13)));
+        }
+    }
     for i in 0..n {
-        let c = if i == 0 && rng.chance(50) {
+        let c = if i == 0 && v.is_empty() && rng.chance(50) {
             goto(rng, &pool, true)
         } else {
             match rng.below(100) {
